@@ -5,6 +5,7 @@
 //!   vmh replay <suite>                          execute the case lines read from stdin
 //!   vmh list
 #![allow(clippy::all)]
+pub mod fdscript;
 pub mod rng;
 pub mod tok;
 pub mod util;
